@@ -299,6 +299,20 @@ def check_apply(o):
         else:
             continue
         break
+    # a shape whose coordinates are stored in single / half precision: the shape route and the bare-array route still agree exactly
+    if c["t"]["kind"] not in ("pwa", "tps"):
+        for dt in (np.float32, np.float16):
+            sd = s.copy()
+            sd.points = np.asarray(s.points).astype(dt)
+            try:
+                rd = t.apply(sd)
+                rawd = np.asarray(t.apply(np.asarray(sd.points).copy()))
+            except Exception as e:
+                bad.append(("apply on a shape with %s coordinates raised %s" % (np.dtype(dt).name, type(e).__name__), {"msg": str(e)[:100]}, None))
+                continue
+            if np.asarray(rd.points).shape != rawd.shape or not np.array_equal(np.asarray(rd.points, dtype=float), np.asarray(rawd, dtype=float)):
+                bad.append(("apply(shape) and apply(shape.points) disagree for a shape whose coordinates are stored as %s" % np.dtype(dt).name,
+                            {"maxdiff": float(np.abs(np.asarray(rd.points, dtype=float) - np.asarray(rawd, dtype=float)).max())}, None))
     # the same numbers whatever the batch size, and whatever number type the caller's coordinates come in
     if c["t"]["kind"] not in ("pwa",):
         want_pts = np.asarray(r.points, dtype=float)
@@ -416,6 +430,13 @@ def check_vec(o):
         bad.append(("from_vector given whole numbers as an int64 array differs from the same numbers as floats", {}, None))
     if same(s0, state(s)):
         bad.append(("from_vector (other layouts) changed the receiver: " + same(s0, state(s)), {}, None))
+    # a receiver whose own coordinates are stored as whole numbers (pixel annotations) still takes the VALUES it is given
+    si = s.copy()
+    si.points = np.round(np.asarray(s.points) * 2.0).astype(np.int64)
+    ri = si.from_vector(ov.copy())
+    if not np.allclose(np.asarray(ri.points, dtype=float), np.asarray(r2.points, dtype=float), atol=1e-12, rtol=0):
+        bad.append(("from_vector on a shape with integer-typed points does not give the coordinates of the vector (truncated?)",
+                    {"got": np.asarray(ri.points, dtype=float)[:2], "want": np.asarray(r2.points, dtype=float)[:2]}, None))
     # wrong lengths
     n = want.shape[0]
     for ln in [0, d, n - d, n - 1, n + 1, n + d, 2 * n]:
